@@ -74,12 +74,15 @@ def VTable.unlist (t : VTable) : Res VTable :=
 def subTable (t : Table) (ids : List Nat) : Val :=
   .dict (t.map fun c => (c.1, .list (pick c.2 ids)))
 
-/-- `d.groupby(*by, grp = 'grp')` (lines 998-1010) -/
+/-- `d.groupby(*by, grp = 'grp')` (lines 998-1010).  A `grp` that is one of the keys is rejected (`ValueError`, fix G1 of round h1: before
+it `rtn[grp] = [sub-tables]` REPLACED the key column of that name and `ungroup` returned the table without it).  A `grp` that is the
+name of another column is fine: that column lives inside the sub-tables. -/
 def Table.groupby (t : Table) (by_ : List String) (grp : String) : Res VTable :=
   if t.nrows = 0 then .ok t.toV else
   let by_ := if by_.isEmpty then t.cols else by_
   if by_.length = 0 then .error .value
   else if by_.length = t.cols.length then .error .value
+  else if by_.contains grp then .error .value
   else do
     let keys ← t.keysOf (by_.map .col)
     let gs := listbyG keys
@@ -113,10 +116,14 @@ def VTable.ungroup (t : VTable) (grp : String) : Option (Res VTable) := do
 
 /-! ### pivot / unpivot -/
 
+/-- the aggregator of `xyz`: the four the driver can spell, or ANY function of the list of z values (`fn`: "the supplied function" of the
+statement; total — an aggregator that raises is not modelled) -/
 inductive Agg where
   | none | len | first | last
+  | fn (f : List Cell → Val)
 
 def Agg.apply : Agg → List Cell → Val
+  | .fn f, vs => f vs
   | .none, vs => .list (vs.map .cell)
   | .len, vs => .cell (.int vs.length)
   | .first, vs => .cell (vs.headD .none)
@@ -127,7 +134,9 @@ through `str` and keeps every other key AS THE PYTHON OBJECT IT IS: a float, a d
 the dict).  Column names of the model are strings, so a non-string key `c` is REPRESENTED by the tagged name
 `U+0000 ++ <wire atom of c>` (`"\x00F:6"` for `1.5`, `"\x00N"` for `None`; the harness encodes the implementation's column keys
 the same way); a string is its own name (assumption: string cells do not start with U+0000) and an int `n` is the name
-`str(n)` — so `1` and `'1'` get the SAME name.  bools (`True == 1` as dict keys) and NaN (a dict key by identity): not modelled. -/
+`str(n)` — so `1` and `'1'` get the SAME name.  NaN y values are ONE y value (`cmp`-equal, whatever the objects: fix G2 of round h1 looks the
+column of an (x, y) group up by position, not through a dict keyed by the NaN object) whose column key is a NaN object: name `U+0000 F:nan`.
+bools (`True == 1` as dict keys): not modelled. -/
 def keyName : Cell → Option String
   | .str s => some s
   | .int n => some (toString n)
@@ -136,8 +145,8 @@ def keyName : Cell → Option String
   | .pinf => some ("\x00" ++ Cell.pinf.render)
   | .ninf => some ("\x00" ++ Cell.ninf.render)
   | .dt us => some ("\x00" ++ (Cell.dt us).render)
+  | .nan => some ("\x00" ++ Cell.nan.render)
   | .bool _ => Option.none
-  | .nan => Option.none
 
 /-- a `y` value rendered as a column label (`keyName` of a scalar; containers: not modelled) -/
 def yLabel : Val → Option String
@@ -158,10 +167,16 @@ def pivotCell (xyg : List Grp) (nx : Nat) (zs : List Cell) (agg : Agg) (yids : L
   | some j => agg.apply (((xyg.getD j (.cell .none, [])).2).map fun i => zs.getD i .none)
 
 /-- `d.xyz(x, y, z, agg)` (lines 1282-1307) for a table with at least one row, `x` column names,
-`y` and `z` one column name each.  `none`: outside the modelled domain (empty table, no x column, a y value that is
-a bool / NaN / container, an x column name repeated). -/
+`y` and `z` one column name each.  `none`: outside the modelled domain (no x column, a y value that is
+a bool / container, an x column name repeated). -/
 def Table.pivot (t : Table) (x : List String) (y z : String) (agg : Agg) : Option (Res VTable) :=
-  if t.nrows = 0 ∨ x.isEmpty then none else
+  if x.isEmpty then none else
+  if t.nrows = 0 then
+    -- a table without rows (fix G3 of round h1: `return self[list(x)]`; before it `TypeError: 'NoneType' object is not subscriptable`):
+    -- the pivot table has the x columns and no row; only the x columns are looked up
+    (if ¬ x.Nodup then none else
+     if x.all fun k => (t.col? k).isSome then some (.ok (x.map fun k => (k, []))) else some (.error .key))
+  else
   match t.keysOf ((x ++ [y]).map .col), t.col? z with
   | .error e, _ => some (.error e)
   | .ok _, Option.none => some (.error .key)
